@@ -500,66 +500,109 @@ func (c *Ctx) cod4() {
 		a.done(1, "")
 		return
 	}
-	// the loop continues (back edge to shift's block) only under guards on shift;
-	// evaluate: the largest shift value s (multiple of 7) for which the back edge is
-	// feasible determines the number of bytes read = s/7 + 2.
-	maxCont := int64(-1)
-	found := false
-	for _, p := range c.Paths("COD-4", pp) {
-		if p.End != pathx.KLoopBack || p.Events[len(p.Events)-1].Target != shift.Block() || p.Start != shift.Block() {
-			continue
-		}
-		found = true
-		// collect constraints on shift along this path
-		lo, hi := int64(0), int64(1<<40)
-		for _, cm := range assumed(p, 0, -1) {
+	// The induction variable is only ever compared with constants, so the loop
+	// is evaluated exactly for shift = 0, 7, 14, … : an iteration is entered
+	// with shift s when the previous one could loop back; it reads a byte
+	// when a path from the loop head reaches ReadByte under the guards that
+	// hold for s; it can end the decode when such a path leaves the loop
+	// and goes on.
+	b4 := c.acc("COD-4", pp, "remaining-length-accepts-4-bytes")
+	sat := func(p *pathx.Path, upto int, s int64) bool {
+		for _, cm := range assumed(p, 0, upto) {
 			for _, k := range []cmp{cm, cm.swapped()} {
 				if strip(k.X) != shift {
 					continue
 				}
-				n, ok := intConst(k.Y)
-				if !ok {
-					continue
-				}
-				switch k.Op {
-				case token.LSS:
-					if n-1 < hi {
-						hi = n - 1
-					}
-				case token.LEQ:
-					if n < hi {
-						hi = n
-					}
-				case token.GTR:
-					if n+1 > lo {
-						lo = n + 1
-					}
-				case token.GEQ:
-					if n > lo {
-						lo = n
-					}
+				if h, ok := k.holds(s); ok && !h {
+					return false
 				}
 			}
 		}
-		if hi > maxCont {
-			maxCont = hi
-		}
-		_ = lo
+		return true
 	}
-	switch {
-	case !found:
+	isRead := func(e *pathx.Event) bool {
+		return e.Kind == pathx.KCall && e.Callee != nil && (stdName(e.Callee) == "(*bufio.Reader).ReadByte" || stdName(e.Callee) == "(*bufio.Reader).Read" || stdName(e.Callee) == "(*bufio.Reader).Peek")
+	}
+	var heads []*pathx.Path
+	for _, p := range c.Paths("COD-4", pp) {
+		if p.Start == shift.Block() {
+			heads = append(heads, p)
+		}
+	}
+	reads := func(s int64) bool {
+		for _, p := range heads {
+			if r := p.Index(0, isRead); r >= 0 && sat(p, r, s) {
+				return true
+			}
+		}
+		return false
+	}
+	cont := func(s int64) bool {
+		for _, p := range heads {
+			if p.End == pathx.KLoopBack && p.Events[len(p.Events)-1].Target == shift.Block() && sat(p, -1, s) {
+				return true
+			}
+		}
+		return false
+	}
+	leaves := func(s int64) bool {
+		for _, p := range heads {
+			r := p.Index(0, isRead)
+			if r < 0 || !sat(p, -1, s) {
+				continue
+			}
+			if p.End == pathx.KLoopBack && p.Events[len(p.Events)-1].Target == shift.Block() {
+				continue
+			}
+			// goes on after the byte: some call other than building an error, or a nil return
+			for i := r + 1; i < len(p.Events); i++ {
+				e := &p.Events[i]
+				if e.Kind == pathx.KCall && e.Callee != nil && stdName(e.Callee) != "fmt.Errorf" && stdName(e.Callee) != "errors.New" {
+					return true
+				}
+				if e.Kind == pathx.KLoopBack {
+					return true // into a later loop of the function
+				}
+			}
+			if p.End == pathx.KReturn && retErr(p, len(p.Events)-1) == triNil {
+				return true
+			}
+		}
+		return false
+	}
+	if len(heads) == 0 {
 		a.failAt(c.P.Pos(shift.Pos()), "no iteration path of the length decode found")
-	case maxCont >= 1<<39:
-		a.failAt(c.P.Pos(shift.Pos()), "the length decode can continue without any bound on the shift: unbounded read")
-	default:
-		// continuing at shift s reads byte number s/7+2
-		bytes := maxCont/7 + 2
-		if bytes <= 4 {
+	} else {
+		nRead, nLeave := 0, 0
+		s := int64(0)
+		for ; s <= 70; s += 7 {
+			if !reads(s) {
+				break
+			}
+			nRead++
+			if leaves(s) {
+				nLeave++
+			}
+			if !cont(s) {
+				s += 7
+				break
+			}
+		}
+		switch {
+		case s > 70:
+			a.failAt(c.P.Pos(shift.Pos()), "the length decode can continue without any bound on the shift: unbounded read")
+		case nRead > 4:
+			a.failAt(c.P.Pos(shift.Pos()), "the length decode reads %d bytes: a 5-byte remaining length is accepted", nRead)
+		default:
 			a.pass()
+		}
+		if nRead >= 4 && nLeave >= 4 {
+			b4.pass()
 		} else {
-			a.failAt(c.P.Pos(shift.Pos()), "the length decode continues while shift ≤ %d, so byte number %d of the remaining length is read: a 5-byte length is accepted", maxCont, bytes)
+			b4.failAt(c.P.Pos(shift.Pos()), "the length decode reads %d length bytes and can end after %d of them, want 4 and 4: a legal four-byte remaining length (packets from 2 MiB) is refused", nRead, nLeave)
 		}
 	}
+	b4.done(1, "iterations with shift 0, 7, 14 and 21 read a byte and may end the decode")
 	a.done(1, "the loop continues only while shift ≤ 14, so at most four length bytes are read")
 }
 
